@@ -95,3 +95,394 @@ pub fn char_reader_script(chunks: Vec<Vec<u8>>, script: &str) -> Vec<String> {
 
     out
 }
+
+/// Runs a script of heap operations (property C33/C20 of the verification suite) on a private
+/// `machine::heap::Heap` built with `Heap::with_cell_capacity(cap_cells)` (`Heap::new()` when
+/// `cap_cells == 0`) and returns one report token per operation.
+///
+/// Operations (`<hex>` is the UTF-8 text as hex digits, `-` for the empty string):
+/// `budget <n>|none` (number of grows that may still reach the allocator), `grow`, `push <n>`,
+/// `pstr <hex>`, `cstr <hex>`, `copypstr <k> <off>` (`copy_pstr_within` at byte `off` of the
+/// k-th string returned so far; refused unless `off` lies inside its first segment),
+/// `copyslice <a> <b>` and `append <n>` (both refused on a never-allocated heap),
+/// `reserve <n> <k>` (reserve n cells, write k), `list <size> <items>`
+/// (`sized_iter_to_heap_list`), `truncate <c>` (strings reaching beyond `c` are forgotten),
+/// `functor <hex>` (`functor_writer` of `error(<string>, [])`), `read <k>`, `step <k>`
+/// (read the k-th string back through `char_iter`/`scan_slice_to_str`, resp. through
+/// `last_str_char_and_tail`).
+///
+/// Report token: `<status>,<byte_len>,<byte_cap>[,<detail>]` with status `ok`, `err`
+/// (AllocError), `GUARD` (bytes after `byte_cap` were overwritten; while the budget is 0 every
+/// operation runs with 512 guard bytes behind the capacity), `OVER` (`byte_len > byte_cap`),
+/// `DIRTY` (a failed operation changed `byte_len`), `bad` (unparsable operation). After
+/// `GUARD`/`OVER` the script stops.
+pub fn heap_script(cap_cells: usize, ops: &[String]) -> Vec<String> {
+    use crate::atom_table::*;
+    use crate::functor_macro::*;
+    use crate::machine::heap::{sized_iter_to_heap_list, verif_set_grow_budget, Heap, SizedHeap};
+    use crate::types::*;
+
+    const GUARD: usize = 512;
+
+    struct ResetBudget;
+    impl Drop for ResetBudget {
+        fn drop(&mut self) {
+            crate::machine::heap::verif_set_grow_budget(None);
+        }
+    }
+    let _reset = ResetBudget;
+
+    fn hex_decode(s: &str) -> Option<String> {
+        if s == "-" {
+            return Some(String::new());
+        }
+        let b = s.as_bytes();
+        if b.len() % 2 != 0 {
+            return None;
+        }
+        let mut out = Vec::with_capacity(b.len() / 2);
+        for i in (0..b.len()).step_by(2) {
+            let h = (b[i] as char).to_digit(16)?;
+            let l = (b[i + 1] as char).to_digit(16)?;
+            out.push((h * 16 + l) as u8);
+        }
+        String::from_utf8(out).ok()
+    }
+
+    fn hex(b: &[u8]) -> String {
+        if b.is_empty() {
+            return "-".into();
+        }
+        b.iter().map(|x| format!("{:02x}", x)).collect()
+    }
+
+    fn num_cell(i: usize) -> HeapCellValue {
+        HeapCellValue::build_with(HeapCellValueTag::Fixnum, i as u64)
+    }
+
+    fn cell_desc(c: HeapCellValue) -> String {
+        match c.get_tag() {
+            HeapCellValueTag::PStrLoc => format!("P{}", c.get_value()),
+            HeapCellValueTag::Lis => format!("L{}", c.get_value()),
+            HeapCellValueTag::Var => format!("V{}", c.get_value()),
+            HeapCellValueTag::Str => format!("S{}", c.get_value()),
+            _ => {
+                if c == empty_list_as_cell!() {
+                    "N".into()
+                } else {
+                    "O".into()
+                }
+            }
+        }
+    }
+
+    // Follows a string from `cell` the way HeapPStrIter::step does (PStrLoc: segment text and
+    // tail index from scan_slice_to_str; Lis: character cell, tail is the next cell). With
+    // `stepwise` the segment is walked one character at a time by last_str_char_and_tail.
+    // Result: <hex of the text>@<final tail cell index>:<what is there>.
+    fn read_back(heap: &Heap, cell: HeapCellValue, stepwise: bool) -> String {
+        let mut text: Vec<u8> = Vec::new();
+        let mut cur = cell;
+        let mut tail = usize::MAX;
+        let (byte_len, _) = heap.verif_len_cap();
+        let cell_len = byte_len / 8;
+
+        for _ in 0..(2 * cell_len + 4) {
+            match cur.get_tag() {
+                HeapCellValueTag::PStrLoc => {
+                    let h = cur.get_value() as usize;
+                    if h >= byte_len {
+                        return format!("{}@{}:oob", hex(&text), tail);
+                    }
+                    if stepwise {
+                        let mut loc = h;
+                        loop {
+                            let (c, next) = heap.last_str_char_and_tail(loc);
+                            let mut buf = [0u8; 4];
+                            text.extend_from_slice(c.encode_utf8(&mut buf).as_bytes());
+                            if next.get_tag() == HeapCellValueTag::PStrLoc {
+                                loc = next.get_value() as usize;
+                            } else {
+                                tail = next.get_value() as usize;
+                                break;
+                            }
+                        }
+                    } else {
+                        let s: String = heap.char_iter(h).collect();
+                        let scan = heap.scan_slice_to_str(h);
+                        if scan.string != s {
+                            return format!("{}@{}:itermismatch", hex(&text), tail);
+                        }
+                        text.extend_from_slice(s.as_bytes());
+                        tail = scan.tail_idx;
+                    }
+                }
+                HeapCellValueTag::Lis => {
+                    let h = cur.get_value() as usize;
+                    if h >= cell_len {
+                        return format!("{}@{}:oob", hex(&text), tail);
+                    }
+                    match heap[h].as_char() {
+                        Some(c) => {
+                            let mut buf = [0u8; 4];
+                            text.extend_from_slice(c.encode_utf8(&mut buf).as_bytes());
+                            tail = h + 1;
+                        }
+                        None => return format!("{}@{}:nochar", hex(&text), tail),
+                    }
+                }
+                _ => {
+                    let what = if cur == empty_list_as_cell!() { "nil" } else { "other" };
+                    return format!("{}@{}:{}", hex(&text), tail, what);
+                }
+            }
+
+            if tail >= cell_len {
+                return format!("{}@{}:end", hex(&text), tail);
+            }
+
+            cur = heap[tail];
+        }
+
+        format!("{}@{}:loop", hex(&text), tail)
+    }
+
+    let mut heap = if cap_cells == 0 {
+        Heap::new()
+    } else {
+        match Heap::with_cell_capacity(cap_cells) {
+            Ok(h) => h,
+            Err(_) => return vec!["err,0,0".into()],
+        }
+    };
+
+    let mut budget: Option<usize> = None;
+    // returned cell and the cell index up to which the string (with its tail slot) extends;
+    // `None` once a truncate has cut into it
+    let mut strings: Vec<Option<(HeapCellValue, usize)>> = Vec::new();
+    let mut out: Vec<String> = Vec::new();
+    let mut counter = 0usize;
+
+    for op in ops {
+        let w: Vec<&str> = op.split(' ').filter(|x| !x.is_empty()).collect();
+        let arg = |i: usize| -> Option<usize> { w.get(i).and_then(|x| x.parse::<usize>().ok()) };
+        let (len0, cap0) = heap.verif_len_cap();
+
+        // operations that do not write
+        match w.first().copied() {
+            Some("budget") => {
+                budget = arg(1);
+                out.push(format!("ok,{},{}", len0, cap0));
+                continue;
+            }
+            Some("grow") => {
+                verif_set_grow_budget(budget);
+                let ok = heap.verif_grow();
+                if ok {
+                    budget = budget.map(|b| b.saturating_sub(1));
+                }
+                let (l, c) = heap.verif_len_cap();
+                out.push(format!("{},{},{}", if ok { "ok" } else { "err" }, l, c));
+                continue;
+            }
+            Some("read") | Some("step") => {
+                let r = match arg(1).and_then(|k| strings.get(k).copied().flatten()) {
+                    Some((c, _)) => read_back(&heap, c, w[0] == "step"),
+                    None => "na".into(),
+                };
+                out.push(format!("ok,{},{},{}", len0, cap0, r));
+                continue;
+            }
+            _ => {}
+        }
+
+        // byte_len before the (last) fallible call of the operation
+        let mut fail_len = len0;
+        let guarded = budget == Some(0) && heap.verif_guard_install(GUARD);
+        verif_set_grow_budget(budget);
+
+        // Ok(Some(detail)) / Ok(None): success; Err(true): AllocError; Err(false): bad operation
+        let res: Result<Option<String>, bool> = match (w.first().copied(), arg(1), arg(2)) {
+            (Some("push"), Some(n), _) => {
+                let mut r = Ok(None);
+                for _ in 0..n {
+                    counter += 1;
+                    fail_len = heap.verif_len_cap().0;
+                    if heap.push_cell(num_cell(counter)).is_err() {
+                        r = Err(true);
+                        break;
+                    }
+                }
+                r
+            }
+            (Some("pstr"), _, _) | (Some("cstr"), _, _) => match w.get(1).and_then(|h| hex_decode(h)) {
+                Some(s) => {
+                    let r = if w[0] == "pstr" {
+                        heap.allocate_pstr(&s)
+                    } else {
+                        heap.allocate_cstr(&s)
+                    };
+                    match r {
+                        Ok(c) => {
+                            // allocate_pstr leaves the tail slot to the caller
+                            let end = heap.cell_len() + if w[0] == "pstr" { 1 } else { 0 };
+                            strings.push(Some((c, end)));
+                            Ok(Some(cell_desc(c)))
+                        }
+                        Err(_) => Err(true),
+                    }
+                }
+                None => Err(false),
+            },
+            (Some("copypstr"), Some(k), Some(off)) => match strings.get(k).copied().flatten() {
+                Some((c, _)) if c.get_tag() == HeapCellValueTag::PStrLoc => {
+                    let start = c.get_value() as usize;
+                    let loc = start + off;
+                    if start >= len0 || off >= heap.scan_slice_to_str(start).string.len() {
+                        Err(false)
+                    } else {
+                        match heap.copy_pstr_within(loc) {
+                            Ok(tail_idx) => {
+                                let copy = heap.scan_slice_to_str(len0);
+                                Ok(Some(format!(
+                                    "T{}:{}@{}",
+                                    tail_idx,
+                                    hex(copy.string.as_bytes()),
+                                    copy.tail_idx
+                                )))
+                            }
+                            Err(_) => Err(true),
+                        }
+                    }
+                }
+                _ => Err(false),
+            },
+            (Some("copyslice"), Some(a), Some(b)) => {
+                // (a never-allocated heap has a null pointer: not a valid source or destination)
+                if a <= b && b <= len0 / 8 && cap0 > 0 {
+                    heap.copy_slice_to_end(a..b).map(|_| None).map_err(|_| true)
+                } else {
+                    Err(false)
+                }
+            }
+            (Some("reserve"), Some(n), Some(k)) => {
+                if k <= n {
+                    match heap.reserve(n) {
+                        Ok(mut writer) => {
+                            writer.write_with(|section| {
+                                for i in 0..k {
+                                    section.push_cell(num_cell(i));
+                                }
+                            });
+                            Ok(None)
+                        }
+                        Err(_) => Err(true),
+                    }
+                } else {
+                    Err(false)
+                }
+            }
+            (Some("list"), Some(size), Some(items)) => {
+                if items <= size {
+                    match sized_iter_to_heap_list(&mut heap, size, (0..items).map(num_cell)) {
+                        Ok(c) => Ok(Some(cell_desc(c))),
+                        Err(_) => Err(true),
+                    }
+                } else {
+                    Err(false)
+                }
+            }
+            (Some("append"), Some(n), _) if cap0 > 0 => match Heap::with_cell_capacity(n.max(2)) {
+                Ok(mut other) => {
+                    // the other heap is filled without fault injection
+                    verif_set_grow_budget(None);
+                    for i in 0..n {
+                        let _ = other.push_cell(num_cell(i));
+                    }
+                    verif_set_grow_budget(budget);
+                    heap.append(&other).map(|_| None).map_err(|_| true)
+                }
+                Err(_) => Err(false),
+            },
+            (Some("truncate"), Some(c), _) => {
+                if c <= len0 / 8 {
+                    heap.truncate(c);
+                    for st in strings.iter_mut() {
+                        if matches!(st, Some((_, end)) if *end > c) {
+                            *st = None;
+                        }
+                    }
+                    Ok(None)
+                } else {
+                    Err(false)
+                }
+            }
+            (Some("functor"), _, _) => match w.get(1).and_then(|h| hex_decode(h)) {
+                Some(s) => {
+                    let stub = functor!(
+                        atom!("error"),
+                        [string(s), atom_as_cell((atom!("[]")))]
+                    );
+                    let mut writer = Heap::functor_writer(stub);
+                    match writer(&mut heap) {
+                        Ok(c) => Ok(Some(cell_desc(c))),
+                        Err(_) => Err(true),
+                    }
+                }
+                None => Err(false),
+            },
+            _ => Err(false),
+        };
+
+        let (len1, cap1) = heap.verif_len_cap();
+
+        // grows consumed by the operation (each successful grow doubles the capacity or
+        // takes it from 0 to its initial size)
+        if let Some(b) = budget {
+            let mut c = cap0;
+            let mut used = 0;
+            while c < cap1 {
+                c = if c == 0 { 256 * 256 * 8 } else { 2 * c };
+                used += 1;
+            }
+            budget = Some(b.saturating_sub(used));
+        }
+
+        let mut status = match &res {
+            Ok(_) => "ok",
+            Err(true) => "err",
+            Err(false) => "bad",
+        };
+
+        let mut stop = false;
+
+        if guarded {
+            if !heap.verif_guard_intact(GUARD) {
+                status = "GUARD";
+                stop = true;
+            }
+            heap.verif_guard_remove(GUARD);
+        }
+
+        if len1 > cap1 {
+            if !stop {
+                status = "OVER";
+            }
+            stop = true;
+        } else if matches!(res, Err(true)) && len1 != fail_len {
+            status = "DIRTY";
+        }
+
+        match res {
+            Ok(Some(d)) => out.push(format!("{},{},{},{}", status, len1, cap1, d)),
+            _ => out.push(format!("{},{},{}", status, len1, cap1)),
+        }
+
+        if stop {
+            break;
+        }
+    }
+
+    verif_set_grow_budget(None);
+    out
+}
